@@ -31,6 +31,8 @@ MUTANTS = [
     {"name": "broker-peers-include-replicas", "file": "src/broker/query.rs", "old": ".filter(|n| n.get_role() == Role::Master && n.get_proxy_address() != address)", "new": ".filter(|n| n.get_proxy_address() != address)", "expect": "C02.D1:broker"},
     {"name": "slot-map-skips-tagged", "file": "src/proxy/slot.rs", "old": "            for slot_range in slot_ranges {\n                for range in", "new": "            for slot_range in slot_ranges {\n                if slot_range.tag.is_migrating() {\n                    continue;\n                }\n                for range in", "expect": "C02.D1:slot-map"},
     {"name": "moved-to-other-slot-owner", "file": "src/proxy/cluster.rs", "old": "        match self.slot_map.get(slot) {\n            Some(addr) => {\n                if self.remote_backend.is_some() {", "new": "        match self.slot_map.get(slot + 1) {\n            Some(addr) => {\n                if self.remote_backend.is_some() {", "expect": "C02.D2"},
+    {"name": "importing-precheck-installs-preblocking", "file": "src/migration/scan_task.rs", "old": "            MgrSubCmd::PreCheck => self.state.set_state(MigrationState::PreCheck),", "new": "            MgrSubCmd::PreCheck => self.state.set_state(MigrationState::PreBlocking),", "expect": "C02.D4:handshake-step:PreCheck"},
+    {"name": "peers-collected-into-map", "file": "src/broker/query.rs", "old": "            .group_by(|node| node.get_proxy_address().to_string())\n            .into_iter()\n            .map(|(proxy_address, nodes)| {\n                // Collect all slots from masters.\n                let slots = nodes.flat_map(Node::into_slots).collect();\n                PeerProxy {\n                    proxy_address,\n                    slots,\n                }\n            })", "new": "            .map(|node| (node.get_proxy_address().to_string(), node.into_slots()))\n            .collect::<std::collections::BTreeMap<String, Vec<_>>>()\n            .into_iter()\n            .map(|(proxy_address, slots)| PeerProxy {\n                proxy_address,\n                slots,\n            })", "expect": "C02.D1:view-lossless"},
 ]
 
 
@@ -385,6 +387,9 @@ def _redirection(ctx):
         mg, im = st["migrating"][s], st["importing"][s]
         ctx.check(mg in ("local", "redirect-dst"), "C02.D4", "migrating:%s" % s, site(st["bodies"]["migrating"]), ok="source: %s" % mg, bad="source proxy routes `%s` in state %s" % (mg, s))
         ctx.check(im in ("serve", "redirect-src"), "C02.D4", "importing:%s" % s, site(st["bodies"]["importing"]), ok="destination: %s" % im, bad="destination proxy routes `%s` in state %s" % (im, s))
+    # exactly one side executes: the destination serves only from the handshake step at which the source stops executing
+    from .C03 import _switch_vs_send
+    _switch_vs_send(ctx, st, "C02.D4")
     # no ping-pong: never (source redirects to dst) while (dst redirects to src) in the same state
     for s in st["states"]:
         ctx.check(not (st["migrating"][s] == "redirect-dst" and st["importing"][s] == "redirect-src"), "C02.D4", "no-ping-pong:%s" % s, None,
